@@ -409,9 +409,12 @@ def Total.add (a b : Total) : Total :=
 instance : Add Total := ⟨Total.add⟩
 
 /-- the three name-table loops of one function record: rounds, and whether all three completed -/
-def tablesSteps (ctx0 : Ctx) (d : Bytes) (idx : Int) : Nat :=
-  match getSI 2 d (idx + 12), getSI 4 d (idx + 14), getSI 2 d (idx + 18), getSI 4 d (idx + 20), getSI 2 d (idx + 24), getSI 4 d (idx + 26) with
-  | .ok nArg, .ok argOff, .ok nLocal, .ok localOff, .ok countC, .ok globOff =>
+def tablesSteps (ctx0 : Ctx) (d : Bytes) (idx : Int) (declared0 : Nat) : Nat :=
+  match getSI 2 d (idx + 12), getSI 4 d (idx + 14), getSI 2 d (idx + 18), getSI 4 d (idx + 20), getSI 2 d (idx + 24), getSI 4 d (idx + 26),
+        getSI 4 d (idx + 4) with
+  | .ok nArg, .ok argOff, .ok nLocal, .ok localOff, .ok countC, .ok globOff, .ok bcLen =>
+    -- the running-total guard (F103) comes before the loops
+    if declared0 + (bcLen.toNat + 2 * (nLocal.toNat + nArg.toNat + countC.toNat)) > d.length then 0 else
     let a := localNamesSteps ctx0 d localOff nLocal.toNat 0
     match localNames ctx0 d localOff nLocal.toNat 0 with
     | .error _ => a
@@ -420,7 +423,7 @@ def tablesSteps (ctx0 : Ctx) (d : Bytes) (idx : Int) : Nat :=
       match paramNames ctx0 d argOff nArg.toNat 0 with
       | .error _ => a + b
       | .ok _ => a + b + handlerGlobalsSteps d globOff countC.toNat 0
-  | _, _, _, _, _, _ => 0
+  | _, _, _, _, _, _, _ => 0
 
 /-- the fourteen field reads of one function record (all of them come before the name-table loops) -/
 def frbFields (d : Bytes) (idx : Int) : R Unit := do
@@ -442,14 +445,14 @@ def frbFields (d : Bytes) (idx : Int) : R Unit := do
 
 /-- one round of `for i in range(0, header.frb_nrecords)` of parse_frb: its counters and the state for the next round -/
 def parseFuncS (ctx0 : Ctx) (d : Bytes) (idx : Int) (fs : FrbState) : Total × R FrbState :=
-  match readFrb ctx0 d idx with
+  match readFrb ctx0 d idx fs.declared with
   | .error e =>
     -- the record's 42 bytes could not be read (no name-table loop ran) or a name-table loop raised
     (match frbFields d idx with
-     | .ok _ => { frb := 1, tables := tablesSteps ctx0 d idx }
+     | .ok _ => { frb := 1, tables := tablesSteps ctx0 d idx fs.declared }
      | .error _ => { frb := 1 }, .error e)
   | .ok r =>
-    let t0 : Total := { frb := 1, tables := tablesSteps ctx0 d idx }
+    let t0 : Total := { frb := 1, tables := tablesSteps ctx0 d idx fs.declared }
     let ctx := { ctx0 with params := r.params, localVars := r.locals }
     let o := opcodeLoopS ctx d r.bcOff r.bcLen r.bcOff fs.regs { bpc := fs.bpc, tell := fs.tell, gvars := r.globals }
     let t1 : Total := { opcodes := o.1.rounds, jump := o.1.jump }
@@ -468,7 +471,7 @@ def parseFuncS (ctx0 : Ctx) (d : Bytes) (idx : Int) (fs : FrbState) : Total × R
         | .ok stmts' =>
           let f : FuncDef := { name := r.fname, pos := idx + 42, params := r.params, localVars := r.locals, globalVars := st.gvars,
                                stmts := stmts', isMethod := r.isMethod }
-          (t0 + t1 + t2 + t3, .ok { bpc := st.bpc, tell := st.tell, regs := regs, funcs := fs.funcs ++ [f] })
+          (t0 + t1 + t2 + t3, .ok { bpc := st.bpc, tell := st.tell, regs := regs, funcs := fs.funcs ++ [f], declared := r.declared })
 
 def parseFuncsS (ctx : Ctx) (d : Bytes) : Nat → Int → FrbState → Total
   | 0, _, _ => {}
